@@ -176,6 +176,33 @@ def r16_1(cx):
                 picks_index = pr.kind == 'proj' and pr.op == 'field' and pr.info.get('i') == 0 and pr.params() == {2}
                 if x is not None and x.params() == {2} and any(n.kind == 'proj' and n.op == 'field' and n.info.get('i') == 1 for n in x.walk()) and picks_index:
                     ok_alts = idx_ok = guard_ok = True
+    # ... the same once `map_or(MAX, |(idx, _)| idx)` has been rewritten into its match: MAX, or the index component of
+    # what find(|(_, item)| !is_erased(item)) over items.iter().enumerate() returned
+    if not (ok_alts and idx_ok and guard_ok):
+        good = 0
+        for a in alts:
+            a = a.strip()
+            if a.kind == 'const' and a.info.get('int') == 2**64 - 1:
+                continue
+            fc = [c for c in a.calls() if c.op.endswith('Iterator>::find') or c.op.endswith('Iterator::find')]
+            if len(fc) != 1 or len(fc[0].args) != 2 or a.kind != 'proj':
+                good = -99
+                continue
+            it, pred = fc[0].args[0], closure_of(m.prog, fc[0].args[1])
+            over_items = any(m.is_items(n) for n in it.walk()) and it.has_call('iter') and it.has_call('enumerate') and not any(
+                c.op.rsplit('::', 1)[-1] in ('rev', 'skip', 'step_by', 'take', 'filter', 'skip_while', 'take_while', 'chain') for c in it.calls())
+            root, path = field_path(a)
+            if pred is None or not over_items or path[-1:] != ['0']:
+                good = -99
+                continue
+            ret = pred.local_expr(0, []).strip()
+            x = m.erased_of(ret.a) if ret.kind == 'unop' and ret.op == 'Not' else None
+            if x is not None and x.params() == {2} and any(n.kind == 'proj' and n.op == 'field' and n.info.get('i') == 1 for n in x.walk()):
+                good += 1
+            else:
+                good = -99
+        if good >= 1:
+            ok_alts = idx_ok = guard_ok = True
     for pos, st in f.statements():
         if st['k'] == 'assign' and st['rv']['k'] == 'use':
             v = f.rvalue_expr(st['rv']).strip()
